@@ -97,3 +97,5 @@ Proof.
   pose proof (feasible_in m s _ Hf Hrow) as Hr. simpl in Hr. unfold row_ok, row_lhs in Hr. simpl in Hr.
   fold (lhs s (ones zero)) in Hr. unfold z in Hr. lia.
 Qed.
+
+Print Assumptions cut_semantics_zero_unbounded.
